@@ -382,8 +382,32 @@ Definition epytext_presult (errors : list (N * bool)) (p : N) : presult :=
   | inr p' => PR_ok p' (map fst errors)
   end.
 
+(* ---- ParsedEpytextDocstring.to_node():
+        if self._document is not None: return self._document
+        self._document = new_document('epytext')                 # cached BEFORE the conversion
+        if self._tree is not None:
+            node, = self._to_node(self._tree)                     # may raise (AssertionError ...)
+            self._document = set_node_attributes(self._document, children=node.children)
+        return self._document
+   `conv` is the oracle for self._to_node(self._tree); the state is self._document. *)
+Inductive convres : Type := ConvOk (doc : N) | ConvRaise.
+Definition EMPTY_DOCUMENT : N := 0.
+
+Definition epytext_to_node (has_tree : bool) (conv : convres) (document : option N) : outcome N * option N :=
+  match document with
+  | Some d => (Ok d, document)
+  | None =>
+    if has_tree then
+      match conv with
+      | ConvOk d => (Ok d, Some d)
+      | ConvRaise => (Raised, Some EMPTY_DOCUMENT)
+      end
+    else (Ok EMPTY_DOCUMENT, Some EMPTY_DOCUMENT)
+  end.
+
 (* ================================================================== wire codec ===== *)
-(* input  := ( 0 cfg ops ) | ( 1 flags )
+(* input  := ( 0 cfg ops ) | ( 1 flags ) | ( 2 has_tree conv ncalls )   conv: () raises | (d)
+                                                      output of mode 2: list of (0 d) returned d | (1) raised
    cfg    := ( sysfmt pt toc objs pdocs parsers ptypes plainsums )
      objs      := list of ( oid parent? modfmt? doc? )                 x? = () | (x)
      pdocs     := list of ( pid to_stan fields varfields summ toc )
@@ -538,6 +562,13 @@ Definition run_epytail (flags : list sexp) : sexp :=
   | inr _ => L [A 1]
   end.
 
+Fixpoint run_to_node (has_tree : bool) (conv : convres) (document : option N) (n : nat) : list sexp :=
+  match n with
+  | O => []
+  | S n' => let '(r, d') := epytext_to_node has_tree conv document in
+            (match r with Ok d => L [A 0; of_N d] | Raised => L [A 1] end) :: run_to_node has_tree conv d' n'
+  end.
+
 Definition run (s : sexp) : sexp :=
   match to_Z (nth_s 0 s) with
   | 0%Z =>
@@ -550,5 +581,8 @@ Definition run (s : sexp) : sexp :=
        L (map (fun so => L [of_N (fst so); of_N (snd so)]) (parse_errors st));
        L (map (fun o => L [of_N o; of_option enc_parsed (pdoc st o); of_option enc_parsed (psum st o)]) oids)]
   | 1%Z => run_epytail (to_list (nth_s 1 s))
+  | 2%Z => L (run_to_node (to_bool (nth_s 1 s))
+                          (match to_option to_N (nth_s 2 s) with Some d => ConvOk d | None => ConvRaise end)
+                          None (to_nat (nth_s 3 s)))
   | _ => bad_input
   end.
